@@ -134,7 +134,7 @@ THEOREMS = ["Marwood.Proofs.C12." + t for t in [
     "eval_collection_points_ok", "runHistory_session_ok", "history_capacity_bounded_machine",
     "hHalt_cgc", "sHalt_evalSizeBounded", "demo_eval", "demo_jobsOk"]]
 
-CHEAP = ["pairs", "vectors", "strings", "symbols", "bignums", "sliced", "abandoned", "bulk"]
+CHEAP = ["pairs", "vectors", "strings", "symbols", "bignums", "sliced", "abandoned", "bulk", "rejected"]
 MEDIUM = ["closures", "continuations", "contchain"]
 COMPILING = ["eval", "toplevel", "mixed", "errors", "syntaxerrors", "unbound", "globalrefs", "evallex", "shorterrors"]
 
